@@ -20,12 +20,13 @@ func main() {
 	runner.Main(runner.Config{
 		ID:    "C19",
 		Level: "model_checking",
-		Rule:  "bounded exhaustive enumeration, free-running goroutines: (roundtrip) 12 catalogue trees (nested/empty dirs, empty files, relative/dangling/absolute symlinks, 60 small files flat and nested, 300KiB file first, block-boundary sizes) + all 180 trees over {a,b in absent/empty file/file/dir/symlink/dangling symlink} x {d in absent/empty dir/dir+file/dir+dir/dir+symlink} x producers {archiver.CompressZip, containerarchiver.CompressZip, archiver.CompressTar} x workers {1,2,3,4,8,16,-1} x ResumeFrom {unset,set}: extract into an empty dir, independent Lstat tree comparison, ExtractResult == entries per kind, extract again over the result; (resume-sequential) 1 worker, crash image (directory copy + resume file) taken after every entry and at every seam event (every archive ReadAt, extract/ln message, OnEntryDone: includes partially written files), ExtractZip re-run on the image with the same resume file; (resume-out-of-order) W in {2,3} workers, W-1 chosen entries held at their header read while one worker extracts the rest, crash image when a later entry completes, re-run on the image; (resume-after-error) header read of entry k fails, ExtractZip re-run with the same ResumeFrom. Non-trivial = tree with >=2 entries incl. a non-empty file (roundtrip); restart that both skips and extracts entries or meets a partial file (resume).",
+		Rule:  "(variant sched) stateless model checking of the real ExtractZip under a controlled scheduler with its file-system calls visible: every interleaving of dispatcher and workers up to a preemption bound (happens-before cached DFS), and a crasher goroutine that makes every scheduling instant a crash point (directory + resume file snapshot, everything killed, ExtractZip re-run on the image with the same resume file); plus bounded exhaustive enumeration, free-running goroutines: (roundtrip) 12 catalogue trees (nested/empty dirs, empty files, relative/dangling/absolute symlinks, 60 small files flat and nested, 300KiB file first, block-boundary sizes) + all 180 trees over {a,b in absent/empty file/file/dir/symlink/dangling symlink} x {d in absent/empty dir/dir+file/dir+dir/dir+symlink} x producers {archiver.CompressZip, containerarchiver.CompressZip, archiver.CompressTar} x workers {1,2,3,4,8,16,-1} x ResumeFrom {unset,set}: extract into an empty dir, independent Lstat tree comparison, ExtractResult == entries per kind, extract again over the result; (resume-sequential) 1 worker, crash image (directory copy + resume file) taken after every entry and at every seam event (every archive ReadAt, extract/ln message, OnEntryDone: includes partially written files), ExtractZip re-run on the image with the same resume file; (resume-out-of-order) W in {2,3} workers, W-1 chosen entries held at their header read while one worker extracts the rest, crash image when a later entry completes, re-run on the image; (resume-after-error) header read of entry k fails, ExtractZip re-run with the same ResumeFrom. Non-trivial = tree with >=2 entries incl. a non-empty file (roundtrip); restart that both skips and extracts entries or meets a partial file (resume).",
 		Assumptions: []string{
 			"goroutines of ExtractZip run free (Go scheduler) except where a seam callback blocks them; the schedule dimension proper is the E2 part of C19",
 			"a crash is modelled as: directory and resume file exactly as they are at a seam while every worker is blocked in a harness callback; directory entries have no seam, their after-entry state is rebuilt with the real archiver.Mkdir and cross-checked at the next seam",
 			"file modes and timestamps are not compared; names are ASCII",
 		},
+		Variants:       []string{"sched"},
 		QuickBudget:    90 * time.Second,
 		ThoroughBudget: 15 * time.Minute,
 	}, body)
@@ -44,7 +45,13 @@ func record(o Out, r *runner.Rec) {
 	r.Trans(o.Trans)
 }
 
+var schedSubs func(w *runner.W)
+
 func body(w *runner.W) {
+	if schedSubs != nil && w.Variant == "sched" {
+		schedSubs(w)
+		return
+	}
 	// the pid keeps a worker restarted after a crash away from the leftovers of its predecessor
 	env := NewEnv(filepath.Join(w.Scratch(), fmt.Sprintf("c19-%d", os.Getpid())), w.Seed)
 	cat := Catalogue()
